@@ -415,7 +415,7 @@ func runC12_6(c *core.Ctx) {
 			}
 			k++
 			why, ok := putOwners[f.Name]
-			if !ok && !ast.IsExported(f.Obj.Name()) {
+			if !ok && !f.Obj.Exported() {
 				// an unexported helper that pools (part of) its own parameter on behalf of its callers:
 				// accepted when every caller is an owner of the table
 				usesParam := false
